@@ -90,6 +90,8 @@ def classify_call(c, aliases):
 
 def module_aliases(prog, m):
     out = dict(ext_aliases(prog, m))
+    if out.get("numpy") == "numpy":
+        out.setdefault("np", "numpy")  # dotted() spells a bare `numpy` root as `np`
     for local, (mod, attr) in m.imports.items():
         top = mod.split(".")[0]
         if top in STDLIB_FORBIDDEN_MODULES | {"os"}:
